@@ -3,6 +3,7 @@ package main
 import (
 	"math"
 	"sync"
+	"sync/atomic"
 	"time"
 
 	"github.com/deadsy/sdfx/sdf"
@@ -212,6 +213,21 @@ type ySDF3 struct {
 	inner  sdf.SDF3
 	jid    uint32
 	setCtx bool // leaves are wrapped: publish the current point as context
+	slow   *slowEval
+}
+
+// slowEval: one evaluation of a render takes long in real time (the value it
+// returns is unchanged).
+type slowEval struct {
+	at    int64
+	d     time.Duration
+	count atomic.Int64
+}
+
+func (s *slowEval) tick() {
+	if s != nil && s.count.Add(1) == s.at {
+		time.Sleep(s.d)
+	}
 }
 
 func (w *ySDF3) BoundingBox() sdf.Box3 { return w.inner.BoundingBox() }
@@ -222,6 +238,7 @@ func (w *ySDF3) Evaluate(p v3.Vec) float64 {
 		old = simcore.SetCtx(simcore.Ctx{Job: w.jid, Sub: h})
 	}
 	simcore.Yield(simcore.Label{Site: SEvalPre, Job: w.jid, A: h})
+	w.slow.tick()
 	d := w.inner.Evaluate(p)
 	simcore.Yield(simcore.Label{Site: SEvalPost, Job: w.jid, A: h})
 	if w.setCtx {
@@ -234,6 +251,7 @@ type ySDF2 struct {
 	inner  sdf.SDF2
 	jid    uint32
 	setCtx bool
+	slow   *slowEval
 }
 
 func (w *ySDF2) BoundingBox() sdf.Box2 { return w.inner.BoundingBox() }
@@ -244,6 +262,7 @@ func (w *ySDF2) Evaluate(p v2.Vec) float64 {
 		old = simcore.SetCtx(simcore.Ctx{Job: w.jid, Sub: h})
 	}
 	simcore.Yield(simcore.Label{Site: SEvalPre, Job: w.jid, A: h})
+	w.slow.tick()
 	d := w.inner.Evaluate(p)
 	simcore.Yield(simcore.Label{Site: SEvalPost, Job: w.jid, A: h})
 	if w.setCtx {
